@@ -27,6 +27,8 @@ def alphabet():
         ("bun", "B1", ("C", "b1", Q("bn"))), ("bun", "B1", ("C", "b2", Q("bn"))),
         ("ns", "B1", "ex", "B"), ("def", "B1", "B"),
         ("el", "D", "entity", x), ("el", "D", "entity", xd), ("el", "D", "entity", xb),
+        # a third URI under the prefix 'ex' (QualifiedName spelling: no declaration needed), in both scopes
+        ("el", "D", "entity", ("C", "x", Q("ex"))), ("el", "B1", "entity", ("B", "x", Q("ex"))),
         ("el", "B1", "entity", x), ("el", "B1", "entity", ("B", "x", BARE)), ("el", "B1", "entity", ("B", "x", S("ex"))),
         ("rel", "D", "generation", None, (x, None, None)),
         ("rel", "B1", "generation", ("A", "g", Q("ex")), (x, ("A", "a", Q("ex")), None)),
@@ -80,9 +82,10 @@ class C09(spec.Spec):
 
     # -- pair sequences ---------------------------------------------------------------
     def pair_case(self, item, out):
-        h1, h2, maxlen = item
+        h1, h2, maxlen = item[:3]
+        ops = item[3] if len(item) > 3 else OPS
         for n in range(1, maxlen + 1):
-            for seq in itertools.product(OPS, repeat=n):
+            for seq in itertools.product(ops, repeat=n):
                 if seq.count("flat") and seq[-1] != "flat":
                     # flattened() returns a new document; only explored as the last step here
                     continue
@@ -227,6 +230,9 @@ def main(tier, seed):
         items += [(a, b, 2) for a in small for b in small if (len(a) == 2) != (len(b) == 2) and min(len(a), len(b)) == 0]
         items += [(a, b, 1) for a in small for b in small if max(len(a), len(b)) == 2]
         items += [(a, b, 1) for a in hists for b in hists if (len(a) == 3) != (len(b) == 3) and min(len(a), len(b)) <= 1]
+        # record-moving sequences (update, then flatten / update again) also for the deep x shallow pairs
+        items += [(a, b, 2, ("upd", "flat")) for a in hists for b in hists
+                  if (len(a) == 3) != (len(b) == 3) and min(len(a), len(b)) == 1]
     else:
         items += [(a, b, 3) for a in small for b in small]
         items += [(a, b, 2) for a in hists for b in hists if (len(a) == 3) != (len(b) == 3)]
